@@ -226,33 +226,120 @@ func checkC14(c *core.Ctx, r *core.Report) {
 				}
 			}
 		}
-		n := 0
-		for m, dels := range del {
-			if len(upd[m]) == 0 {
-				continue
+		// the deletion sets: maps that are ranged over with the key handed to a removal call
+		var sets []ssa.Value
+		for _, b := range rmList.Blocks {
+			for _, in := range b.Instrs {
+				rg, ok := in.(*ssa.Range)
+				if !ok || len(upd[rg.X]) == 0 {
+					continue
+				}
+				feeds := false
+				t := localFlow{}
+				t.from(rg)
+				for _, b2 := range rmList.Blocks {
+					for _, in2 := range b2.Instrs {
+						if ci, ok := in2.(ssa.CallInstruction); ok {
+							if f := core.CalleeFunc(ci); f != nil && f.Pkg() != nil && f.Pkg().Path() == "os" && strings.HasPrefix(f.Name(), "Remove") {
+								for _, a := range ci.Common().Args {
+									if t[a] {
+										feeds = true
+									}
+								}
+							}
+						}
+					}
+				}
+				if feeds {
+					sets = append(sets, rg.X)
+				}
 			}
+		}
+		n := 0
+		for _, m := range sets {
 			n++
 			isUpd := map[ssa.Instruction]bool{}
 			for _, u := range upd[m] {
 				isUpd[u] = true
 			}
-			var bad ssa.Instruction
-			for _, d := range dels {
-				core.WalkForward(rmList, d, func(in ssa.Instruction) bool {
-					if isUpd[in] {
-						bad = in
+			construct := shortFn(rmList) + ":survivors-subtracted-from-deletion-set(" + m.Type().String() + ")"
+			if dels := del[m]; len(dels) > 0 {
+				// shape A: marks first, then every preserved entry is un-marked
+				var bad ssa.Instruction
+				for _, d := range dels {
+					core.WalkForward(rmList, d, func(in ssa.Instruction) bool {
+						if isUpd[in] {
+							bad = in
+						}
+						return true
+					})
+				}
+				if bad != nil {
+					r.Violation("ORDER", construct, c.Pos(bad.Pos()), "a directory can be marked for deletion after preserved entries were already subtracted from the set: a tags tree shared with a surviving segment listed earlier in the file is deleted")
+				} else {
+					r.OK("ORDER", construct, c.Pos(dels[0].Pos()), "every mark precedes every un-mark (set difference computed after the scan)")
+				}
+				continue
+			}
+			// shape B: each mark is guarded by a lookup in an in-use set that is complete when the mark runs
+			bad := ""
+			var at ssa.Instruction
+			for _, u := range upd[m] {
+				var inUse ssa.Value
+				for d := u.Block(); d != nil && inUse == nil; d = d.Idom() {
+					if len(d.Instrs) == 0 {
+						continue
+					}
+					iff, ok := d.Instrs[len(d.Instrs)-1].(*ssa.If)
+					if !ok || d == u.Block() {
+						continue
+					}
+					var find func(v ssa.Value, depth int)
+					find = func(v ssa.Value, depth int) {
+						if depth > 4 || inUse != nil {
+							return
+						}
+						switch x := v.(type) {
+						case *ssa.Lookup:
+							if x.X != m && len(upd[x.X]) > 0 {
+								inUse = x.X
+							}
+						case *ssa.UnOp:
+							find(x.X, depth+1)
+						case *ssa.Extract:
+							find(x.Tuple, depth+1)
+						case *ssa.BinOp:
+							find(x.X, depth+1)
+							find(x.Y, depth+1)
+						}
+					}
+					find(iff.Cond, 0)
+				}
+				if inUse == nil {
+					bad, at = "a directory is marked for deletion and no later step removes the directories of preserved entries from the set", u
+					break
+				}
+				isUse := map[ssa.Instruction]bool{}
+				for _, x := range upd[inUse] {
+					isUse[x] = true
+				}
+				core.WalkForward(rmList, u, func(in ssa.Instruction) bool {
+					if isUse[in] {
+						bad, at = "the set of directories still in use is extended after a directory was already marked for deletion: whether a shared tags tree survives depends on the order of the entries in the file", in
 					}
 					return true
 				})
+				if bad != "" {
+					break
+				}
 			}
-			construct := shortFn(rmList) + ":unmark-after-all-marks(" + m.Type().String() + ")"
-			if bad != nil {
-				r.Violation("ORDER", construct, c.Pos(bad.Pos()), "a directory can be marked for deletion after preserved entries were already subtracted from the set: a tags tree shared with a surviving segment listed earlier in the file is deleted")
+			if bad != "" {
+				r.Violation("ORDER", construct, c.Pos(at.Pos()), bad+": a tags tree shared with a surviving segment is deleted")
 			} else {
-				r.OK("ORDER", construct, c.Pos(dels[0].Pos()), "every mark precedes every un-mark (set difference computed after the scan)")
+				r.OK("ORDER", construct, c.Pos(upd[m][0].Pos()), "every mark is guarded by an in-use set that is complete before the first mark")
 			}
 		}
-		r.Floor("ORDER", "mark/unmark sets in removeMetricsSegmentsByList", n, 1)
+		r.Floor("ORDER", "deletion sets in removeMetricsSegmentsByList", n, 1)
 	}
 
 	// ---------------------------------------------------------------- (4)
@@ -347,4 +434,26 @@ func retentionGuard(c *core.Ctx, b *ssa.BasicBlock, latest, earliest map[*types.
 		return false, "the insertion into the victim map is not guarded by a comparison of the entry's newest event time with the retention horizon"
 	}
 	return false, "no accepting comparison found"
+}
+
+// localFlow: values computed from a seed within one function (operands -> results, no memory).
+type localFlow map[ssa.Value]bool
+
+func (l localFlow) from(v ssa.Value) {
+	if l[v] {
+		return
+	}
+	l[v] = true
+	if refs := v.Referrers(); refs != nil {
+		for _, in := range *refs {
+			if val, ok := in.(ssa.Value); ok {
+				if _, isCall := in.(*ssa.Call); isCall {
+					if f := core.CalleeFunc(in.(ssa.CallInstruction)); f == nil || f.Pkg() == nil || (f.Pkg().Path() != "path" && f.Pkg().Path() != "path/filepath") {
+						continue
+					}
+				}
+				l.from(val)
+			}
+		}
+	}
 }
